@@ -17,9 +17,9 @@ template <class S> controlled_stepper<S> make_dense_output(double atol, double r
 struct verif_script {
     /* number of steps the mock takes; <0: default (1). throw_at: step index (1-based) at which the
        system function 'throws' (std::runtime_error) ; 0: never */
-    long nsteps; long throw_at;
+    long nsteps; long throw_at; int unit_rate;
 };
-inline verif_script &verif_odeint_script() { static verif_script s = {-1, 0}; return s; }
+inline verif_script &verif_odeint_script() { static verif_script s = {-1, 0, 0}; return s; }
 template <class Stepper, class System, class State, class Time, class Obs>
 size_t integrate_adaptive(Stepper st, System sys, State &y, Time t0, Time t1, Time dt, Obs obs) {
     verif_script &s = verif_odeint_script();
@@ -31,7 +31,7 @@ size_t integrate_adaptive(Stepper st, System sys, State &y, Time t0, Time t1, Ti
         Time h = (t1 - t0) / (Time)n;
         State ydot(y.size());
         sys.first(y, ydot, t);
-        for (size_t k = 0; k < y.size(); k++) y[k] += h * ydot[k];
+        for (size_t k = 0; k < y.size(); k++) y[k] += h * (s.unit_rate ? 1.0 : ydot[k]);
         t = (i == n) ? t1 : t + h;
         obs(y, t);                    /* and after every accepted step */
     }
